@@ -456,6 +456,28 @@ class Body:
                 d[t["dst"]["l"]].append(("call", i))
             if t["k"] == "yield" and not t["resume_arg"]["proj"]:
                 d[t["resume_arg"]["l"]].append(("yield", i))
+        # locals captured by `&mut` in a closure built here: the closure's stores through the capture are
+        # definitions of the local as well
+        for i, blk in enumerate(self.blocks):
+            if blk["cleanup"]:
+                continue
+            for j, s in enumerate(blk["stmts"]):
+                if s["k"] != "assign" or "agg" not in s["rv"]:
+                    continue
+                a = s["rv"]["agg"]
+                if a["kind"] != "closure" or a.get("def") not in self.facts.raw["bodies"]:
+                    continue
+                names = a.get("fields", [])
+                for k, op in enumerate(s["rv"]["ops"]):
+                    pl = op.get("move") or op.get("copy")
+                    if pl is None or pl["proj"] or k >= len(names):
+                        continue
+                    # the operand is a temporary holding `&mut local`
+                    for dd in d.get(pl["l"], []):
+                        if dd[0] == "stmt":
+                            rv2 = self.blocks[dd[1]]["stmts"][dd[2]]["rv"]
+                            if "ref" in rv2 and rv2["mut"] and not rv2["ref"]["proj"]:
+                                d[rv2["ref"]["l"]].append(("closure", a["def"], names[k], i, j))
         self._defs = d
         return d
 
@@ -502,6 +524,8 @@ class Body:
                 alts.append(self.call_term(d[1]))
             elif d[0] == "yield":
                 alts.append(("resume",))
+            elif d[0] == "closure":
+                alts.extend(self._closure_store_terms(d))
         if not alts:
             if l == 0:
                 t = ("uninit", 0)
@@ -518,6 +542,28 @@ class Body:
             t = uniq[0] if len(uniq) == 1 else ("phi", uniq)
         self._terms[l] = t
         return t
+
+    def _closure_store_terms(self, d):
+        """values a closure stores through its `&mut` capture `d[2]`, expressed in this body's terms"""
+        _, cdef, upvar, bi, sj = d
+        cb = self.facts.bodies.get(cdef)
+        if cb is None:
+            return []
+        agg = self.blocks[bi]["stmts"][sj]["rv"]
+        names = agg["agg"].get("fields", [])
+        mapping = {}
+        for k, op in enumerate(agg["ops"]):
+            if k < len(names):
+                mapping[names[k]] = self.operand_term(op)
+        out = []
+        for (bb, j, dst, rv, s) in cb.stores():
+            if bb not in cb.reachable:
+                continue
+            t = cb.place_term(dst)
+            # *upvar  (the capture is a reference)
+            if t == ("deref", ("param", upvar)) or t == ("param", upvar):
+                out.append(subst(cb.rvalue_term(rv), mapping))
+        return out
 
     def call_term(self, bb):
         c = self.calls[bb]
@@ -1044,3 +1090,70 @@ def same_shape(a, b, depth=0):
     if isinstance(a, list) and isinstance(b, list):
         return len(a) == len(b) and all(same_shape(x, y, depth + 1) for x, y in zip(a, b))
     return a == b
+
+
+def _places_in(o, out):
+    if isinstance(o, dict):
+        if "l" in o and "proj" in o:
+            out.append(o)
+            return
+        for v in o.values():
+            _places_in(v, out)
+    elif isinstance(o, list):
+        for v in o:
+            _places_in(v, out)
+
+
+def _own_field_mentions(self):
+    """(adt, field) of every field projection mentioned anywhere in the body (reads and writes)"""
+    if getattr(self, "_mentions", None) is not None:
+        return self._mentions
+    out = set()
+    pl = []
+    for i, blk in enumerate(self.blocks):
+        if blk["cleanup"] or i not in self.reachable:
+            continue
+        _places_in(blk["stmts"], pl)
+        _places_in(blk["term"], pl)
+    for p in pl:
+        for e in p["proj"]:
+            if isinstance(e, dict) and "f" in e and e.get("of") and e.get("name") is not None:
+                out.add((e["of"], e["name"]))
+    self._mentions = out
+    return out
+
+
+Body.field_mentions = _own_field_mentions
+
+
+def _fields_touched(self, body_name, _seen=None):
+    """transitive closure of field mentions over the call graph from body_name"""
+    memo = self.__dict__.setdefault("_touch", {})
+    if body_name in memo:
+        return memo[body_name]
+    names = self.reachable_bodies([body_name])
+    out = set()
+    for n in names:
+        out |= self.bodies[n].field_mentions()
+    memo[body_name] = out
+    return out
+
+
+Facts.fields_touched = _fields_touched
+
+
+def subst(t, mapping, depth=0):
+    """replace ('param', name) leaves by mapping[name] (captured variables -> outer terms)"""
+    if depth > 80 or not isinstance(t, tuple):
+        return t
+    if t[0] == "param" and t[1] in mapping:
+        return mapping[t[1]]
+    out = []
+    for c in t:
+        if isinstance(c, tuple):
+            out.append(subst(c, mapping, depth + 1))
+        elif isinstance(c, list):
+            out.append([subst(e, mapping, depth + 1) if isinstance(e, tuple) else e for e in c])
+        else:
+            out.append(c)
+    return tuple(out)
